@@ -26,7 +26,9 @@ LEVEL_NOTE = ("Bounds in evidence.bounds. For a language absent from the previou
               "languages present in both). No totals row is required when fewer than two languages are shown."
               " Pairs are rendered through print_report with comparison reports from another checkout path; findings on 9- and 50-line terminals; command trees in a fresh interpreter per terminal width (250, 80).")
 
-VARIANTS = [(1, 2, 30, 0, 0), (2, 3, 30, 1, 0), (3, 1, 1200, 1, 2), (1, 2, 45, 0, 1)]  # files, functions, loc, hard, unmaintainable
+VARIANTS = [(1, 2, 30, 0, 0), (2, 3, 30, 1, 0), (3, 1, 1200, 1, 2), (1, 2, 45, 0, 1),  # files, functions, loc, hard, unmaintainable
+            # large code bases: six-digit figures whose deltas have five digits (a cell like '254321 (+23277)' is 15 characters wide)
+            (1200, 34567, 254321, 789, 91), (1100, 30000, 231044, 700, 50)]
 # two triples: one name a prefix of another (Java / JavaScript), and names that differ only in punctuation (C / C++ / C#)
 LANGSETS = [["Python", "JavaScript", "Java"], ["C", "C++", "C#"]]
 LANGS = [l for ls in LANGSETS for l in ls]
@@ -455,7 +457,7 @@ def run(ctx: core.Ctx):
     ctx.rule = ("overview case = (current assignment, previous assignment or none), assignment = per language absent or one of 4 totals variants; "
                 "each rendered in text and Markdown (transitions = renders). findings case = (n in 0..13, length pattern, #files, full, repository, "
                 "format). Non-trivial: overview with a previous report and >= 1 language / findings with n > 0.")
-    options = [None] + list(range(len(VARIANTS)))[: ctx.pick(2, len(VARIANTS))]
+    options = [None] + list(range(4))[: ctx.pick(2, 4)]
     if ctx.quick:
         options = [None, 0, 2]
     pairs = []
@@ -464,6 +466,10 @@ def run(ctx: core.Ctx):
         for combo in itertools.product(options, repeat=len(langs)):
             assigns.append({l: v for l, v in zip(langs, combo) if v is not None})
         pairs += [(c, None) for c in assigns] + [(c, p) for c in assigns for p in assigns]
+    big = []
+    for combo in itertools.product([None, 4, 5], repeat=len(LANGSETS[0])):
+        big.append({l: v for l, v in zip(LANGSETS[0], combo) if v is not None})
+    pairs += [(c, p) for c in big for p in big]
     step = max(1, len(pairs) // (ctx.workers * 4) + 1)
     blocks = [("pairs", pairs[i:i + step]) for i in range(0, len(pairs), step)]
     fcases = [(n, pat, nf, full, repo, fmt) for n in range(0, 14) for pat in ("distinct", "tied", "mixed") for nf in (1, 2, 3)
